@@ -1282,6 +1282,30 @@ fn permission_query(req: &J) -> J {
     let ents = match Entities::from_json_value(req["entities"].clone(), Some(&schema)) { Ok(e) => e, Err(e) => return json!({"input_error": e.to_string()}) };
     let action = uid(&req["action"]);
     let cx = |s: &Schema| Context::from_json_value(req["context"].clone(), Some((s, &action))).map_err(|e| e.to_string());
+    if req["kind"] == "action" {
+        // action query with an unknown context: compared with concrete authorization over a list of candidate contexts
+        use cedar_policy::{ActionQueryRequest, PartialEntities, PartialEntityUid};
+        let (p, r) = (uid(&req["principal"]), uid(&req["resource"]));
+        let q = match ActionQueryRequest::new(PartialEntityUid::from_concrete(p.clone()), PartialEntityUid::from_concrete(r.clone()), None, schema.clone()) { Ok(q) => q, Err(e) => return json!({"input_error": e.to_string()}) };
+        let pents = match PartialEntities::from_concrete(ents.clone(), &schema) { Ok(e) => e, Err(e) => return json!({"input_error": e.to_string()}) };
+        let mut got: Vec<(String, String)> = match ps.query_action(&q, &pents) { Ok(it) => it.map(|(a, d)| (a.to_string(), format!("{d:?}"))).collect(), Err(e) => return json!({"query_error": e.to_string()}) };
+        got.sort();
+        let mut problems: Vec<String> = vec![];
+        for a in req["actions"].as_array().cloned().unwrap_or_default() {
+            let a = uid(&a);
+            let mut allows = vec![];
+            for c in req["contexts"].as_array().cloned().unwrap_or_default() {
+                let cx = match Context::from_json_value(c.clone(), Some((&schema, &a))) { Ok(c) => c, Err(_) => continue };
+                if let Ok(rq) = Request::new(p.clone(), a.clone(), r.clone(), cx, Some(&schema)) {
+                    allows.push(Authorizer::new().is_authorized(&rq, &ps, &ents).decision() == cedar_policy::Decision::Allow);
+                }
+            }
+            let label = got.iter().find(|(x, _)| x == &a.to_string()).map(|(_, d)| d.clone());
+            if allows.iter().any(|x| *x) && label.is_none() { problems.push(format!("{a} is allowed for some context but the query omits it")); }
+            if label.as_deref() == Some("Some(Allow)") && allows.iter().any(|x| !*x) { problems.push(format!("{a} is labelled definitely allowed but is denied for some context")); }
+        }
+        return json!({"query": problems, "brute_force": Vec::<String>::new(), "answer": got});
+    }
     let resource_query = req["kind"] == "resource";
     let ty: EntityTypeName = match req[if resource_query { "resource_type" } else { "principal_type" }].as_str().unwrap_or("").parse() { Ok(t) => t, Err(_) => return json!({"input_error": "type name"}) };
     let fixed = uid(&req[if resource_query { "principal" } else { "resource" }]);
